@@ -276,7 +276,7 @@ PROPS["C08"] = dict(
 
 PROPS["C17"] = dict(
     module="RaptorModel.Props.C17",
-    extra_theorem_modules=["RaptorModel.Props.C17Pcg"],
+    extra_theorem_modules=["RaptorModel.Props.C17Pcg", "RaptorModel.Props.C17Par"],
     harnesses=["h_c17"],
     configs=seqpar_configs("h_c17", [1, 2, 3, 4, 7], list(range(1, 17))),
     rule=("well-conditioned SPD systems (weighted graph Laplacian + shift) for CG and non-symmetric diagonally dominant systems for BiCGStab, "
